@@ -90,8 +90,9 @@ def case_lagrange_pair(name, rep):
             sA = maxabs(A_b)
             pair = "jax~tensortrax:lagrange." + name
             reg = 1e-4 if name == "morph" else 0.0  # jax morph adds diag(1e-4, -1e-4, 0) to C
-            compare(run, pair, "stress", Pa, Pb, sA, 1e-8 + 50 * reg, pair + ":stress", config=(pair, "stress", k))
-            compare(run, pair, "statevars", sva2, svb2, max(maxabs(svb2), 1e-300), 1e-8 + 50 * reg, pair + ":statevars")
+            # the 1e-4 perturbation enters the evolution equations (exponentials with p[5], p[6] ~ 6): bound 200 x 1e-4
+            compare(run, pair, "stress", Pa, Pb, sA, 1e-8 + 200 * reg, pair + ":stress", config=(pair, "stress", k))
+            compare(run, pair, "statevars", sva2, svb2, max(maxabs(svb2), 1e-300), 1e-8 + 200 * reg, pair + ":statevars")
             A_a = a.hessian([F, sva])[0]
             compare(run, pair, "elasticity", A_a, A_b, sA, 1e-7 + 50 * reg, pair + ":elasticity")
             sva, svb = np.asarray(sva2), np.asarray(svb2)
@@ -132,7 +133,7 @@ def case_hand_vs_ad(which, rep):
                 for nm in impl:
                     svs[nm] = np.asarray(impl[nm].gradient([Fk, svs[nm]])[-1])
             # F itself was the last step: evaluate once more at a state inside the history (unloading branch)
-            F = 0.5 * (F + np.eye(3).reshape(3, 3, 1, 1))
+            F = batch_F(rng, batch, lo=0.9, hi=1.15)  # mostly below the stored maximum energy
         names = list(impl)
         ref = names[0]
         Pr = impl[ref].gradient([F, svs[ref]])
